@@ -79,6 +79,7 @@ enum : uint32_t {
     F_TWICE = 128,    // free: call twice in a row
     F_FORK = 256,     // the caller's process identity changes before this op (object inherited by a forked child)
     F_BOUNDARY = 512, // X_CLEAN: operate on memory placed at a 4 GiB address boundary
+    F_NESTED = 1024,  // P_INIT: the entropy callback of this generator draws from generator op.c of the same caller
 };
 
 struct Op {
@@ -142,7 +143,7 @@ enum Ctr {
     CT_F_DELIVERY_SHORT, CT_F_DELIVERY_ZERO, CT_F_DELIVERY_FULL,
     CT_F_OS_EINTR, CT_F_OS_EAGAIN, CT_F_OS_PERM, CT_F_OS_OK, CT_F_OS_OPENFAIL, CT_F_OS_SHORTREAD,
     CT_F_OS_STALE_ERRNO, CT_F_OS_SCRIBBLE, CT_F_DIRTY, CT_F_ABANDON, CT_F_FREE_INJECTED, CT_F_ALLOCFAIL_RUNS,
-    CT_F_STACK_PAINT, CT_F_OS_ECHO, CT_F_SLEEP_INTERRUPTED, CT_F_SLEEPS, CT_F_CLOCK_READS, CT_F_FORK, CT_F_BOUNDARY,
+    CT_F_STACK_PAINT, CT_F_OS_ECHO, CT_F_SLEEP_INTERRUPTED, CT_F_SLEEPS, CT_F_CLOCK_READS, CT_F_FORK, CT_F_BOUNDARY, CT_F_NESTED_DRAW,
     // probes
     CT_P_HASH_TOPUP_CONTINUE, CT_P_HASH_TOPUP_EXACT, CT_P_HASH_TOPUP_SHORT, CT_P_HASH_EMPTY_UPDATE, CT_P_HASH_NULL_UPDATE,
     CT_P_HASH_FINAL, CT_P_HASH_REINIT_MID, CT_P_HASH_INIT_AFTER_FREE, CT_P_HASH_INIT_AFTER_FINAL,
@@ -225,6 +226,8 @@ struct PrngObj {
     // C17 twin bookkeeping
     int flip_op = -1; size_t flip_req = 0; int flip_k = 0; size_t flip_out_off = 0;
     bool ever_system = false; uint64_t os_calls_total = 0;
+    // hierarchy: this generator's entropy callback draws from another generator of the same caller
+    PrngObj *master = nullptr; bool nested_involved = false;
 };
 
 struct OpResult { int rc = 0; uint64_t h = 0; bool done = false; };
